@@ -127,6 +127,15 @@ func VerifCheck_history() {
 		}
 		txt := verifHistText("h"+strconv.Itoa(i), verifParamInt("hn"), verifParamInt("pad"+strconv.Itoa(i)))
 		switch {
+		case h == "selflim":
+			// the same Regexp runs into its own stack limit (after inner groups have captured), then
+			// serves the final call: both it and the fresh Regexp carry the limit
+			verifHA.optimizations.MaxBacktrackingStackSize = 48
+			verifHFresh.optimizations.MaxBacktrackingStackSize = 48
+			_, err := verifHA.MatchString(verifParam("limtext"))
+			if err == ErrBacktrackingStackLimit {
+				verifReach("history-hit-own-limit")
+			}
 		case h == "lim":
 			_, err := verifHL.MatchString("ababababababababababababababababc")
 			if err == ErrBacktrackingStackLimit {
@@ -160,6 +169,12 @@ func VerifCheck_history() {
 					r.runmatch.matches[g][k] = verifInt("mt"+strconv.Itoa(g)+"_"+strconv.Itoa(k), -5, 50)
 				}
 			}
+			// capture counts and the balancing flag are whatever an aborted scan (stack limit, timeout)
+			// left behind: any count the slice lengths allow
+			for g := range r.runmatch.matchcount {
+				r.runmatch.matchcount[g] = verifInt("mc"+strconv.Itoa(g), 0, len(r.runmatch.matches[g])/2)
+			}
+			r.runmatch.balancing = verifBool("hv_bal")
 			r.runmatch.RuneIndex = verifInt("hv_ri", -5, 50)
 			r.runmatch.RuneLength = verifInt("hv_rl", -5, 50)
 			r.runmatch.textpos = verifInt("hv_tp", -5, 50)
